@@ -34,6 +34,23 @@ def run(ctx):
         else:
             extra.append((o, rnd.choice(pool), rnd.choice(d1)))
     trees = trees + extra
+    # print collisions: an atom whose (legal, quotable) name is exactly the printed form of another subtree of the same
+    # formula - the library compares, hashes and memoises formulas by printed form
+    import pymc
+    subs = [('U', P, P), ('X', P), ('E', P), ('or', P, TRU), ('not', P), ('A', ('G', P)), ('E', ('X', P)), ('R', TRU, P), ('F', ('X', P))]
+    coll = []
+    for sub in subs:
+        try:
+            name = str(synfam.build(sub, pymc.CTLS))
+        except Exception:
+            continue
+        twin = ('ap', name)
+        for wrap in (lambda z: z, lambda z: ('X', z), lambda z: ('E', ('X', z)), lambda z: ('not', z), lambda z: ('A', ('F', z)), lambda z: ('G', z)):
+            for op in ('and', 'or', 'U', 'imp'):
+                coll.append((op, wrap(twin), wrap(sub)))
+                coll.append((op, wrap(sub), wrap(twin)))
+            coll.append(('A', ('or', wrap(twin), wrap(sub))))
+    trees = trees + coll
     cases = []
     for f in trees:
         for lg in LANGN:
